@@ -86,6 +86,10 @@ def templates():
     out.append(("F8", "1", ["clones ; scount", "cloner ; rcount", "close ; isclosed"]))
     out.append(("F8", "1", ["cloner ; rcount ; isclosed", "close ; rcount"]))
     out.append(("F8", "0", [S + "clones ; scount", R + "recvto 5 ; scount"]))
+    # every way of cloning a handle (same flavour, other flavour, through a conversion) against close
+    for k in (1, 2, 3):
+        out.append(("F8", "1", ["clones %d ; scount" % k, "cloner %d ; rcount" % k, "close ; isclosed"]))
+        out.append(("F8", "1", ["cloner %d ; rcount ; isclosed" % k, "clones %d ; scount" % ((k + 1) % 4), "close ; rcount"]))
     return out
 
 
@@ -462,13 +466,13 @@ def explore(prop, tier, seed):
         for f in futs_:
             allres.extend(f.result())
     jobs2 = []
-    per = 10 if quick else 400
+    per = 40 if quick else 400
     for r in allres:
         if r[2] == "seq" or r[2].startswith("seq hold="):
             j = next(j for j in jobs if j[0] == r[0])
             suffix = r[2][3:]          # the hold / spur options of the base schedule are kept
             sp = [s + suffix for s in preemption_specs(r[3], len(j[3]), per if r[2] == "seq" else max(4, per // 2))]
-            sp += window_specs(r[3], len(j[3]), suffix, 6 if quick else 250)
+            sp += window_specs(r[3], len(j[3]), suffix, 30 if quick else 250)
             if r[2] == "seq":
                 sp += freeze_specs(r[3], len(j[3]), 2 if quick else 12)
             if sp:
